@@ -87,6 +87,87 @@ def r1(ctx, chk):
            file="dateparser/date.py", function="_DateLocaleParser", line=None)
 
 
+def _usec_kind(e, f, ctx, env, depth=0):
+    """abstract value of an expression inside the %f recovery:
+    ('digits',) the captured fraction; ('padded', K); ('exact', K) = int of the fraction right-padded to K digits;
+    ('float',) went through binary floating point; None = not recognised"""
+    from ..core.effects import numeric_string
+    if depth > 6:
+        return None
+    if isinstance(e, ast.Name) and e.id in env:
+        return env[e.id]
+    if numeric_string(e, f, ctx.ix) and not isinstance(e, ast.Constant):
+        # a name bound to the digit group, possibly already padded in place
+        if isinstance(e, ast.Name):
+            # the closest preceding definition decides (the two %f branches define the name separately)
+            defs = sorted(((n.lineno, n.value) for n in iter_own_nodes(f.node) if isinstance(n, ast.Assign)
+                           and any(isinstance(t, ast.Name) and t.id == e.id for t in n.targets)
+                           and n.lineno <= getattr(e, "lineno", 10 ** 9)), key=lambda x: x[0])
+            if defs:
+                k = _pad_width(defs[-1][1], e.id)
+                if k is not None:
+                    return ("padded", k)
+        return ("digits",)
+    if isinstance(e, ast.BinOp) and isinstance(e.op, ast.Add):
+        l = _usec_kind(e.left, f, ctx, env, depth + 1)
+        if l == ("digits",):
+            k = _pad_width(e, ast.unparse(e.left))
+            if k is not None:
+                return ("padded", k)
+    if isinstance(e, ast.Call):
+        fn = ast.unparse(e.func)
+        if isinstance(e.func, ast.Attribute) and e.func.attr == "ljust" and len(e.args) == 2 and isinstance(e.args[0], ast.Constant) \
+                and isinstance(e.args[1], ast.Constant) and e.args[1].value == "0":
+            if _usec_kind(e.func.value, f, ctx, env, depth + 1) == ("digits",):
+                return ("padded", e.args[0].value)
+        if fn == "int" and len(e.args) == 1:
+            a = _usec_kind(e.args[0], f, ctx, env, depth + 1)
+            if a and a[0] == "padded":
+                return ("exact", a[1])
+            if a == ("float",):
+                return ("float",)
+            if a == ("digits",):
+                return ("int-of-digits",)
+        if fn in ("float", "round"):
+            return ("float",)
+        # project helper: evaluate its return with the parameter bound
+        g = ctx.ix.lookup_module_attr(f.module, fn) if "." not in fn else None
+        from ..core.index import Func
+        if isinstance(g, Func) and len(e.args) == len(g.params()):
+            env2 = {}
+            for p, a in zip(g.params(), e.args):
+                v = _usec_kind(a, f, ctx, env, depth + 1)
+                if v is not None:
+                    env2[p] = v
+            rets = [n.value for n in iter_own_nodes(g.node) if isinstance(n, ast.Return) and n.value is not None]
+            kinds = {_usec_kind(r, g, ctx, env2, depth + 1) for r in rets}
+            if len(kinds) == 1:
+                return kinds.pop()
+    if isinstance(e, ast.BinOp) and isinstance(e.op, (ast.Mult, ast.Div, ast.FloorDiv)):
+        l, r = _usec_kind(e.left, f, ctx, env, depth + 1), _usec_kind(e.right, f, ctx, env, depth + 1)
+        if ("float",) in (l, r) or any(isinstance(x, ast.Call) and ast.unparse(x.func) == "float" for x in ast.walk(e)):
+            return ("float",)
+        # int(s) * 10 ** (K - len(s))
+        if l == ("int-of-digits",) and isinstance(e.op, ast.Mult) and isinstance(e.right, ast.BinOp) and isinstance(e.right.op, ast.Pow) \
+                and isinstance(e.right.left, ast.Constant) and e.right.left.value == 10 and isinstance(e.right.right, ast.BinOp) \
+                and isinstance(e.right.right.op, ast.Sub) and isinstance(e.right.right.left, ast.Constant):
+            return ("exact", e.right.right.left.value)
+    return None
+
+
+def _pad_width(d, name):
+    """K of  <name> + (K - len(<name>)) * "0"  (either operand order of the product)"""
+    if isinstance(d, ast.BinOp) and isinstance(d.op, ast.Add) and ast.unparse(d.left) == name and isinstance(d.right, ast.BinOp) \
+            and isinstance(d.right.op, ast.Mult):
+        a, b = d.right.left, d.right.right
+        if isinstance(a, ast.Constant) and a.value == "0":
+            a, b = b, a
+        if isinstance(b, ast.Constant) and b.value == "0" and isinstance(a, ast.BinOp) and isinstance(a.op, ast.Sub) \
+                and isinstance(a.left, ast.Constant) and ast.unparse(a.right) == "len(%s)" % name:
+            return a.left.value
+    return None
+
+
 def r2(ctx, chk):
     rule = "C01.R2"
     ix = ctx.ix
@@ -95,21 +176,27 @@ def r2(ctx, chk):
     for name in ("TIME_MATCHER", "MS_SEARCHER"):
         pat, _ = rx.module_regex(ix, "dateparser.utils.strptime", name)
         widths[name] = rx.max_repeat_of_group(pat, "microsecond")
-    pads = []
-    for n in iter_own_nodes(f.node):
-        if isinstance(n, ast.BinOp) and isinstance(n.op, ast.Mult) and isinstance(n.right, ast.Constant) and n.right.value == "0":
-            l = n.left
-            if isinstance(l, ast.BinOp) and isinstance(l.op, ast.Sub) and isinstance(l.left, ast.Constant):
-                pads.append(l.left.value)
-    chk.floor(rule, len(pads), 1, "right-padding expressions (K - len(ms)) * '0'")
     for name, w in widths.items():
         chk.ob(rule, "%s: microsecond group is 1..6 digits" % name, w == (1, 6), "repeat %s" % (w,), key={"construct": name},
                file=f.file, function="<module>", line=None)
-    for k in pads:
-        ok = all(w is not None and w[1] == k for w in widths.values()) and k == 6
-        chk.ob(rule, "fraction is right-padded to %d digits = the group's maximum width" % k, ok,
-               "a fraction such as .5 is scaled by the wrong power of ten", key={"construct": "pad width"}, file=f.file,
-               function=f.qual, line=f.node.lineno)
+    sites = [k.value for n in iter_own_nodes(f.node) if isinstance(n, ast.Call) and isinstance(n.func, ast.Attribute) and n.func.attr == "replace"
+             for k in n.keywords if k.arg == "microsecond"]
+    chk.floor(rule, len(sites), 1, "microsecond= arguments in the %f recovery")
+    wmax = max((w[1] for w in widths.values() if w), default=None)
+    for e in sites:
+        kind = _usec_kind(e, f, ctx, {})
+        if kind is None:
+            raise AnalysisError(rule, "strptime: microsecond=%s is not one of the recognised exact conversions" % ast.unparse(e)[:60])
+        ok = kind[0] == "exact" and kind[1] == wmax == 6
+        why = ""
+        if kind == ("float",):
+            why = "the fraction is converted through binary floating point: int(float('0.'+s)*1e6) truncates about 1% of six-digit fractions by one microsecond"
+        elif kind[0] == "exact":
+            why = "the fraction is scaled to %s digits but the group allows %s: a short fraction such as .5 is scaled by the wrong power of ten" % (kind[1], wmax)
+        else:
+            why = "conversion kind %s" % (kind,)
+        chk.ob(rule, "strptime: microsecond=%s is the captured fraction right-padded to 6 digits, exactly" % ast.unparse(e)[:40], ok, why,
+               key={"construct": "exact microseconds"}, file=f.file, function=f.qual, line=e.lineno, text=ast.unparse(e))
     tp = ix.cls("dateparser.parser:_time_parser")
     td = ast.literal_eval(tp.attrs["time_directives"])
     chk.ob(rule, "time directives include seconds with and without fraction, 24h and 12h", {"%H:%M:%S", "%H:%M:%S.%f", "%H:%M", "%I:%M %p"} <= set(td),
